@@ -77,6 +77,10 @@ t("high_line_long_statement", "\n" * 300 + "x = [" + _half_a + "]\ny = 1")
 t("high_line_generator", "\n" * 300 + "def g(n):\n    for i in range(n):\n        yield i\nx = list(g(3))")
 t("many_params", "def g(" + ", ".join("p%d" % i for i in range(260)) + "):\n    return p0, p259\nx = g", lo=(3, 7))
 t("many_kwonly_params", "def g(q, *, " + ", ".join("k%d=%d" % (i, i) for i in range(258)) + "):\n    return q, k257\nx = g(1)", lo=(3, 7))
+# wave 9: the variable of an inlined comprehension (3.12+: a hidden local) has the name of a *free* variable of the same
+# function - two different slots of the localsplus table carry one name
+t("comp_var_shadows_free", "def outer():\n    x = 1\n    z = 2\n    def f():\n        y = [x for x in range(3)]\n        return x, y, z\n    return f\nr = outer()()")
+t("comp_var_shadows_free_cell", "def outer():\n    x = 1\n    z = 2\n    def f(w):\n        y = {x: (lambda: w) for x in range(2)}\n        return x, sorted(y), z, w\n    return f\nr = outer()(5)")
 t("const_equal_distinct", "x = (0.0, -0.0, 1, 1.0, True, (1, 2), (1.0, 2.0), 0, False, 0j)")
 
 # ---- functions --------------------------------------------------------------
